@@ -92,6 +92,19 @@ func RunCommitWindows(part, parts int, t *Trace, seg int) int {
 	return seg
 }
 
+// holdVictim keeps the victim where it is until the intruder is done (resume is closed) - or, under the race detector,
+// for a fixed time, so that no synchronisation of the harness orders the intruder's accesses before the victim's.
+func holdVictim(resume chan struct{}) {
+	if RaceBuild {
+		time.Sleep(700 * time.Millisecond)
+		return
+	}
+	select {
+	case <-resume:
+	case <-time.After(30 * time.Second):
+	}
+}
+
 func runCommitWindow(k int, e cwExp, t *Trace, seg int) int {
 	dsz := uint64(8000)
 	if e.full {
@@ -121,10 +134,7 @@ func runCommitWindow(k int, e cwExp, t *Trace, seg int) int {
 	Mon.Yield = func(ev string) {
 		if ev == holdEv && goid() == atomic.LoadInt64(&victimG) && atomic.AddInt32(&nhold, 1) == holdN && atomic.CompareAndSwapInt32(&fired, 0, 1) {
 			inWin <- struct{}{}
-			select {
-			case <-resume:
-			case <-time.After(30 * time.Second):
-			}
+			holdVictim(resume)
 		}
 	}
 	defer func() { Mon.Yield = nil }()
@@ -223,10 +233,7 @@ func runCommitWindow(k int, e cwExp, t *Trace, seg int) int {
 		d.Yield = func(kind string, a uint64) {
 			if kind == "read" && a >= lo && a < hi && goid() == atomic.LoadInt64(&victimG) && atomic.CompareAndSwapInt32(&fired, 0, 1) {
 				inWin <- struct{}{}
-				select {
-				case <-resume:
-				case <-time.After(30 * time.Second):
-				}
+				holdVictim(resume)
 			}
 		}
 		defer func() { d.Yield = nil }()
